@@ -48,7 +48,7 @@ class C08(Prop):
     id = "C08"
     level = "exploration"
     title = "Symbolic mode is confined to its block"
-    campaigns = {"quick": [("main", 20000, 60)], "thorough": [("main", 400000, 1500)]}
+    campaigns = {"quick": [("main", 60000, 60)], "thorough": [("main", 1500000, 1800)]}
     chunk = 100
     rule = ("seeded interleavings of: enter symbolic_mode() / rule_mode() / symbolic_mode(q) / rule_mode(q) / `with q:`, "
             "leave, raise through d frames, create a result iterator (an / infer queries with user predicates), "
